@@ -525,11 +525,6 @@ def run(chk, only=None):
         chk.proof, fails = C.proof_gate("C20")
         for f in fails:
             chk.broken(f, {"theorem_gate": f})
-        if chk.tier == "thorough":
-            ok, out = C.coqchk("C20")
-            chk.extra["coqchk"] = "ok" if ok else out
-            if not ok:
-                chk.broken("coqchk rejects Properties/C20.vo", {"coqchk": out})
     C.ensure_harness()
     C.ensure_tuftool()
     keys = Keys()
